@@ -23,6 +23,8 @@ ABSENT = "<absent>"
 
 
 class Model:
+    unborn = False
+
     def __init__(self, k):
         self.k = k
         self.children = [[] for _ in range(k)]
@@ -52,6 +54,16 @@ class Model:
     def enabled(self, bulk=False):
         ops = []
         attached = {c for lst in self.children for c in lst}
+        if self.unborn:
+            for p in range(self.k - 1):
+                ops.append(["ctor", p])
+            born = self.k - 1
+        else:
+            born = self.k
+        return ops + [o for o in self._enabled(bulk, attached) if all(not isinstance(x, int) or x < born for x in o[1:3])]
+
+    def _enabled(self, bulk, attached):
+        ops = []
         for p in range(self.k):
             anc = set(self.anc_or_self(p))
             for c in range(self.k):
@@ -78,9 +90,12 @@ class Model:
         return ops
 
 
-def build(k):
+def build(k, unborn=False):
     core.reset_store()
-    return [Node("n", id=f"n{i}") for i in range(k)]
+    nodes = [Node("n", id=f"n{i}") for i in range(k)]
+    if unborn:
+        nodes[-1] = None        # created later, by the constructor with parent=<some node> (but not attached)
+    return nodes
 
 
 def impl_apply(nodes, op, model=None):
@@ -104,22 +119,24 @@ def impl_apply(nodes, op, model=None):
         Node.fix_nsmap(n, n.parent.nsmap)
     elif kind == "setns":
         nodes[op[1]].set_nsmap(dict(op[2]), op[3])
+    elif kind == "ctor":
+        nodes[-1] = Node("n", id=f"n{len(nodes) - 1}", parent=nodes[op[1]])
     else:
         raise AssertionError(op)
 
 
 def values(nodes):
-    return [dict(n.nsmap) for n in nodes]
+    return [dict(n.nsmap) if n is not None else {} for n in nodes]
 
 
 def canon(nodes):
-    ix = {id(n): i for i, n in enumerate(nodes)}
-    ch = [[ix[id(c)] for c in n.children] for n in nodes]
-    vals = [sorted(n.nsmap.items()) for n in nodes]
+    ix = {id(n): i for i, n in enumerate(nodes) if n is not None}
+    ch = [[ix[id(c)] for c in n.children] if n is not None else None for n in nodes]
+    vals = [sorted(n.nsmap.items()) if n is not None else None for n in nodes]
     part = {}
     alias = []
     for n in nodes:
-        alias.append(part.setdefault(id(n.nsmap), len(part)))
+        alias.append(part.setdefault(id(n.nsmap), len(part)) if n is not None else -1)
     return repr((ch, vals, alias))
 
 
@@ -136,7 +153,9 @@ def step(nodes, model, op, case):
         return probs
     after = values(nodes)
 
-    if kind in ("declare", "remove", "fixns", "fixns_parent", "setns"):
+    if kind == "ctor":
+        inside = {model.k - 1}
+    elif kind in ("declare", "remove", "fixns", "fixns_parent", "setns"):
         inside = set(model.subtree(op[1]))
     elif kind == "attach":
         inside = set(model.subtree(op[2]))
@@ -149,7 +168,10 @@ def step(nodes, model, op, case):
             probs.append(problem("frame_violated", case,
                                  expected={"node": n, "nsmap": before[n]}, observed=after[n], op=kind))
     # (i) value agreement
-    if kind == "declare":
+    if kind == "ctor":
+        model.unborn = False
+        model.ns[model.k - 1] = {}      # a node that was just constructed has no bindings: nothing was declared on it, it is not attached
+    elif kind == "declare":
         _, n0, pf, u = op
         for m in model.subtree(n0):
             model.ns[m][pf] = u
@@ -185,32 +207,47 @@ def step(nodes, model, op, case):
         if after[n] != model.ns[n]:
             probs.append(problem("binding_mismatch", case,
                                  expected={"node": n, "nsmap": model.ns[n]}, observed=after[n], op=kind))
-    ix = {id(n): i for i, n in enumerate(nodes)}
-    ch = [[ix[id(c)] for c in n.children] for n in nodes]
+    ix = {id(n): i for i, n in enumerate(nodes) if n is not None}
+    ch = [[ix[id(c)] for c in n.children] if n is not None else [] for n in nodes]
     if ch != model.children:
         probs.append(problem("children_mismatch", case, expected=model.children, observed=ch, op=kind))
     return probs
 
 
-def replay_history(k, history):
-    nodes = build(k)
+def replay_history(k, history, unborn=False):
+    nodes = build(k, unborn)
     model = Model(k)
-    for op in history:
-        pr = step(nodes, model, op, {})
+    model.unborn = unborn
+    for i, op in enumerate(history):
+        pr = step(nodes, model, op, {"config": {"k": k, "unborn": unborn}, "history": history[:i], "op": op})
         if pr:
-            raise core.HarnessError(f"history prefix violated the step relation at {op}: {pr[0]['sig']}")
+            # this prefix satisfied the step relation when it was first explored: the library kept state from other
+            # histories run in this process.  Report it; the runner confirms it by re-running the block.
+            raise PrefixFailed(pr)
     return nodes, model
+
+
+class PrefixFailed(Exception):
+    def __init__(self, probs):
+        self.probs = probs
 
 
 def expand(item):
     config, history = item
     k = config["k"]
     bulk = config.get("bulk", False)
-    nodes, model = replay_history(k, history)
+    try:
+        nodes, model = replay_history(k, history, config.get("unborn", False))
+    except PrefixFailed as e:
+        return {"key": None, "state_probs": e.probs, "n_state_checks": 0, "succ": []}
     key = canon(nodes)
     succ = []
     for op in model.enabled(bulk):
-        nodes2, model2 = replay_history(k, history)
+        try:
+            nodes2, model2 = replay_history(k, history, config.get("unborn", False))
+        except PrefixFailed as e:
+            succ.append((op, None, e.probs, "prefix:violation"))
+            continue
         case = {"config": config, "history": history, "op": op}
         probs = step(nodes2, model2, op, case)
         if probs:
@@ -223,14 +260,17 @@ def expand(item):
 
 
 def replay(case):
-    nodes, model = replay_history(case["config"]["k"], case["history"])
+    try:
+        nodes, model = replay_history(case["config"]["k"], case["history"], case["config"].get("unborn", False))
+    except PrefixFailed as e:
+        return e.probs
     return step(nodes, model, case["op"], case)
 
 
 RUNS = {
-    "quick": [dict(k=3, bulk=False, depth=None), dict(k=3, bulk=True, depth=4)],
+    "quick": [dict(k=3, bulk=False, depth=None), dict(k=3, bulk=True, depth=4), dict(k=3, bulk=False, depth=5, unborn=True)],
     "thorough": [dict(k=3, bulk=False, depth=None), dict(k=3, bulk=True, depth=6),
-                 dict(k=4, bulk=False, depth=6)],
+                 dict(k=4, bulk=False, depth=6), dict(k=3, bulk=False, depth=None, unborn=True)],
 }
 
 
@@ -241,7 +281,9 @@ def explore(tier):
     allfix = True
     for r in RUNS[tier]:
         config = {"k": r["k"], "bulk": r["bulk"]}
-        k0 = canon(build(r["k"]))
+        if r.get("unborn"):
+            config["unborn"] = True
+        k0 = canon(build(r["k"], r.get("unborn", False)))
         a, info = e1.bfs(expand, config, k0, max_depth=r["depth"], sample_every=1999)
         acc.merge(a)
         S += info["states"]
